@@ -157,6 +157,15 @@ def r6(rep, prog):
         l = op_local(t["args"][1]) if len(t.get("args", [])) > 1 else None
         lv = provenance(b, l) if l is not None else set()
         okk = any(x[0] == "call" and x[1].endswith("snippet::collapse_overlapped_ranges") for x in lv)
+        if not okk:
+            # ... or the constructor itself collapses what it is given
+            nb = prog.bodies.get("tantivy::snippet::Snippet::new")
+            if nb is not None:
+                for sb, stt in [(x, y) for x in nb.normal_blocks() for y in nb.stmts(x)]:
+                    if stt.get("r") == "agg" and (stt.get("adt") or "").endswith("snippet::Snippet") and "highlighted" in stt.get("fields", []):
+                        hl = op_local(stt["o"][stt["fields"].index("highlighted")])
+                        if hl is not None and any(x[0] == "call" and x[1].endswith("snippet::collapse_overlapped_ranges") for x in provenance(nb, hl)):
+                            okk = True
         rep.check(okk, R, "%s gives Snippet::new collapsed ranges" % short(b.id), "highlighted <- collapse_overlapped_ranges(..)",
                   "`%s` builds a Snippet whose highlighted ranges come straight from the fragment's token matches (%s): with an analyzer whose tokens overlap (n-grams) `Snippet::highlighted()` returns "
                   "overlapping, unsorted ranges such as [0..3, 1..4]" % (b.id, sorted(str(x[1]) for x in lv if x[0] == "call")[:3]), site=site(b, bi))
